@@ -80,6 +80,10 @@ def dtype_ok(dtype, v):
         return None
     if dtype in ("object", "O"):
         return None
+    if dtype in ("bool", "bool_", "?"):
+        if isinstance(v, (int, bool)) and not isinstance(v, float) and int(v) in (0, 1):
+            return None
+        return f"value {v!r} stored with dtype bool becomes {bool(v)!r}"
     return f"dtype {dtype!r} is not in the checker's numpy table"
 
 
@@ -232,7 +236,10 @@ def dataset_rule(ctx: Ctx):
             return
         streams = {"fileA": packets_for(3, [0, 1]) + packets_for(9, [1]) + packets_for(3, [1]), "fileB": packets_for(9, [0]) + packets_for(3, [0])}
 
+        seen_kwargs = []
+
         def pg(selfv, f, **kw):
+            seen_kwargs.append(dict(kw))
             return list(streams[f.attrs["__path__"]])
         h.it.ext["XtcePacketDefinition.packet_generator"] = pg
         mode = "raw" if raw_mode else "derived"
@@ -245,6 +252,12 @@ def dataset_rule(ctx: Ctx):
             ctx.refuted("R18.4", f"{fi.key}::{mode}::runs", f"create_dataset({mode}) raises {got} on a stream with a fixed field set per APID",
                         where=where(fi, fi.node))
             continue
+        # the generator is called with exactly the keyword arguments the caller gave (none here): every packet the
+        # generator would yield by default must reach the dataset
+        ctx.decide(all(k2 == {} for k2 in seen_kwargs) and len(seen_kwargs) == 2, "R18.4", f"{fi.key}::{mode}::generator-arguments",
+                   "packet_generator called once per file with the caller's keyword arguments only",
+                   f"create_dataset calls packet_generator with {seen_kwargs}: options the caller did not give change which packets "
+                   f"reach the dataset", where=where(fi, fi.node))
         # accumulation: got = {apid: dataset}; dataset.data_vars = {name: (dims, array)}
         want_rows = {3: [("fileB", 0), ("fileA", 0), ("fileA", 1), ("fileA", 1)], 9: [("fileB", 0), ("fileA", 1)]}
         ok_acc = isinstance(got, dict) and sorted(got) == [3, 9]
@@ -294,6 +307,38 @@ def dataset_rule(ctx: Ctx):
             else:
                 # the kind of loss is part of the finding's identity: a different loss on the same kind is a new finding
                 ctx.refuted("R18.2", f"{site}::{cat}", bad, where=where(fi, fi.node))
+    # no state survives a call: a second call in the same process with another definition that reuses a parameter name
+    rec = Rec()
+    h = Harness(prog, rec.ext({}), max_steps=2_000_000)
+    try:
+        d1 = build(h)
+        src2 = f'definitions.parameter_types.IntegerParameterType("U8_T", {E}.IntegerDataEncoding(8, "unsigned", default_calibrator={E}.calibrators.PolynomialCalibrator([{E}.calibrators.PolynomialCoefficient(0.25, 1)])))'
+        d2 = h.ev(f'definitions.XtcePacketDefinition([definitions.containers.SequenceContainer("CCSDSPacket", [definitions.parameters.Parameter("U8", {src2})])])'
+                  .replace("parameter_types.encodings", "definitions.parameter_types.encodings") if False else
+                  f'definitions.XtcePacketDefinition([definitions.containers.SequenceContainer("CCSDSPacket", [definitions.parameters.Parameter("U8", {src2.replace("parameter_types.encodings", "definitions.parameter_types.encodings").replace("definitions.definitions.", "definitions.")})])])', XR)
+        first = packets_for(3, [0])
+
+        def pg_a(selfv, f, **kw):
+            return list(first)
+        h.it.ext["XtcePacketDefinition.packet_generator"] = pg_a
+        h.outcome("create_dataset('a', d)", XR, d=d1)
+        p2 = DictObj(cls="CCSDSPacket", raw_data=Obj("RawPacketData", apid=3))
+        p2["U8"] = V("Float", 40.25, 161)
+        h.it.ext["XtcePacketDefinition.packet_generator"] = lambda selfv, f, **kw: [p2]
+        rec.arrays.clear()
+        k, got = h.outcome("create_dataset('b', d)", XR, d=d2)
+        bad = None
+        if k != "ok":
+            bad = f"second call raises {got}"
+        else:
+            for vals, dt in rec.arrays:
+                for v in vals:
+                    why = dtype_ok(dt, _plain(v))
+                    if why:
+                        bad = f"after a call with another definition, parameter U8 (now calibrated) is stored with dtype {dt!r}: {why}"
+        ctx.decide(bad is None, "R18.4", f"{fi.key}::no-state-between-calls", "", bad or "", where=where(fi, fi.node))
+    except (Unsupported, Raised) as e:
+        ctx.unknown("R18.4", f"{fi.key}::no-state-between-calls", str(e))
     # field-set mismatch
     rec = Rec()
     h = Harness(prog, rec.ext({}), max_steps=2_000_000)
@@ -360,7 +405,7 @@ SPEC = PropSpec(
     pid="C18",
     title="The xarray dataset holds every parsed value, per APID, in order, without loss",
     check=check,
-    floors={"R18.1": 7, "R18.2": 32, "R18.4": 3},
+    floors={"R18.1": 7, "R18.2": 32, "R18.4": 6},
     explanation=("xarr.create_dataset and both dtype functions are interpreted from source; numpy.asarray and xarray.Dataset "
                  "are recording stubs and the packet generator yields model packets. R18.1: the dtype chosen for every "
                  "integer width 1..64 x six encoding spellings and for 16/32/64-bit floats must hold the extremes of that "
